@@ -110,7 +110,34 @@ fn replay(path: &PathBuf) -> i32 {
             ctx.unit = "replay".into();
             ctx.paranoid = true;
             ctx.frozen = false;
-            ctx.run(&case);
+            let all = known::load(&shard::verif_dir().join("KNOWN_FINDINGS.txt")).unwrap_or_default();
+            ctx.known_keys = all.iter().filter(|k| k.is_known && k.property == prop).map(|k| k.key.clone()).collect();
+            if let Some(seq) = v["case"]["sequence"].as_array() {
+                // a recorded history: replay exactly the same actions in lock step with the reference
+                let acts: Vec<super::e1::Act> = seq
+                    .iter()
+                    .filter_map(|s| s.as_str())
+                    .map(|s| match s.split_once(':') {
+                        Some((_, a)) if a.starts_with("irq") => super::e1::Act::Irq(a[3..].parse().unwrap_or(0)),
+                        _ => super::e1::Act::Step,
+                    })
+                    .collect();
+                if !acts.is_empty() {
+                    let mut k = 0usize;
+                    let first = acts[0];
+                    let n = acts.len();
+                    ctx.run_seq(&case, first, n, &mut |_o| {
+                        k += 1;
+                        if k < n {
+                            super::e1::Next::Continue(acts[k])
+                        } else {
+                            super::e1::Next::Stop
+                        }
+                    });
+                }
+            } else {
+                ctx.run(&case);
+            }
             println!("case:     {}", v["case"]);
             if ctx.st.violations_total > 0 {
                 let got = &ctx.st.violations[0];
